@@ -17,6 +17,8 @@ import traceback
 VERIF = os.path.dirname(os.path.dirname(os.path.abspath(__file__)))
 EVIDENCE_SCHEMA = "/root/.vp/EVIDENCE.schema.json"
 KNOWN_FILE = os.path.join(VERIF, "KNOWN_FINDINGS.txt")
+# VERIF_OUT (self-validation only, tools/seed_matrix.py): evidence/ and replays/ of a run against a scratch worktree go there
+OUT = os.environ.get("VERIF_OUT") or VERIF
 
 
 class Machinery(Exception):
@@ -44,7 +46,7 @@ class Check:
         self.known = load_known(pid)
         self.scratch = tempfile.mkdtemp(prefix=f"verif_{pid}_")
         atexit.register(shutil.rmtree, self.scratch, True)
-        self.replay_dir = os.path.join(VERIF, "replays", pid)
+        self.replay_dir = os.path.join(OUT, "replays", pid)
         self.info = []
 
     # ---------------------------------------------------------------- bookkeeping
@@ -146,7 +148,7 @@ def write_evidence(pid, ev):
     import shutil as _sh
     import subprocess
 
-    d = os.path.join(VERIF, "evidence")
+    d = os.path.join(OUT, "evidence")
     os.makedirs(d, exist_ok=True)
     tmp = os.path.join(d, f".{pid}.json.tmp")
     with open(tmp, "w") as f:
